@@ -58,3 +58,563 @@ Proof.
   intros want H. unfold decide_stream.
   destruct (String.eqb_spec (p_origin want) "") as [E|_]; [contradiction|reflexivity].
 Qed.
+
+(* ---- maps ----------------------------------------------------------------- *)
+Lemma path_eqb_eq : forall a b, path_eqb a b = true <-> a = b.
+Proof. apply list_eqb_spec. apply String.eqb_eq. Qed.
+Lemma path_eqb_refl : forall a, path_eqb a a = true.
+Proof. intro. apply path_eqb_eq. reflexivity. Qed.
+Lemma path_eqb_neq : forall a b, a <> b -> path_eqb a b = false.
+Proof. intros a b H. destruct (path_eqb a b) eqn:E; [|reflexivity]. apply path_eqb_eq in E. contradiction. Qed.
+
+Lemma fs_get_set_same : forall m p n, fs_get (fs_set m p n) p = Some n.
+Proof.
+  induction m as [|[q x] m IH]; intros p n; cbn.
+  - rewrite path_eqb_refl. reflexivity.
+  - destruct (path_eqb q p) eqn:E; cbn; rewrite E; [reflexivity | apply IH].
+Qed.
+Lemma fs_get_set_other : forall m p q n, p <> q -> fs_get (fs_set m p n) q = fs_get m q.
+Proof.
+  induction m as [|[r x] m IH]; intros p q n H; cbn.
+  - rewrite (path_eqb_neq _ _ H). reflexivity.
+  - destruct (path_eqb r p) eqn:E; cbn.
+    + apply path_eqb_eq in E. subst r. rewrite (path_eqb_neq _ _ H). reflexivity.
+    + destruct (path_eqb r q); [reflexivity | apply IH; exact H].
+Qed.
+Lemma if_get_set_same : forall m p i, if_get (if_set m p i) p = Some i.
+Proof. intros. unfold if_set. cbn. rewrite path_eqb_refl. reflexivity. Qed.
+Lemma if_get_set_other : forall m p q i, p <> q -> if_get (if_set m p i) q = if_get m q.
+Proof. intros. unfold if_set. cbn. rewrite (path_eqb_neq _ _ H). reflexivity. Qed.
+
+(* MkdirAll only adds directories where nothing was *)
+Lemma mkdir_all_keeps : forall ps m perm p n,
+  fs_get m p = Some n -> fs_get (fst (mkdir_all m ps perm)) p = Some n.
+Proof.
+  induction ps as [|q ps IH]; intros m perm p n H; cbn; [exact H|].
+  destruct (fs_get m q) as [x|] eqn:E.
+  - destruct x; cbn; try exact H. apply IH. exact H.
+  - apply IH. rewrite fs_get_set_other; [exact H|]. intro; subst q. congruence.
+Qed.
+
+(* ---- what a successful step can do to the state -------------------------- *)
+Inductive trans (i : nat) (h : hdr) (s s' : st) (app : bool) : Prop :=
+| TSame : s' = s -> trans i h s s' app
+| TGrow : s_if s' = s_if s ->
+          (forall p n, fs_get (s_fs s) p = Some n -> fs_get (s_fs s') p = Some n) -> trans i h s s' app
+| TSet : s' = set_file s i h -> app = true -> (h_kind h = KReg \/ h_kind h = KSym) -> trans i h s s' app.
+
+Ltac inv_ok H := inversion H; subst; clear H.
+
+Lemma need_dir_ok : forall s d k r, need_dir s d k = IOk r -> k tt = IOk r.
+Proof. intros s d k r. unfold need_dir. destruct (dir_state (s_fs s) d); intro H; try discriminate. exact H. Qed.
+
+Lemma step_trans : forall b pkgs i me s h s' app,
+  step b pkgs i me s h = IOk (s', app) -> trans i h s s' app.
+Proof.
+  intros b pkgs i me s h s' app H. unfold step in H.
+  destruct (h_kind h) eqn:K.
+  - (* KReg *)
+    destruct (is_lazy b).
+    + unfold step_lazy_file in H. rewrite K in H. cbn match in H.
+      apply need_dir_ok in H.
+      destruct (fs_get (s_fs s) (h_path h)) as [x|] eqn:G.
+      * destruct x as [m|gs md [j|] dt|tg [j|]|]; try discriminate.
+        -- destruct (decide_lazy (nth j pkgs no_pkg) me gs (h_sum h)); try discriminate; inv_ok H;
+             [apply TSame; reflexivity | apply TSet; auto].
+        -- destruct dt; try discriminate. destruct (N.eqb gs (h_sum h)); try discriminate. inv_ok H. apply TSame; reflexivity.
+        -- destruct (decide_lazy (nth j pkgs no_pkg) me tg (h_sum h)); try discriminate; inv_ok H;
+             [apply TSame; reflexivity | apply TSet; auto].
+      * inv_ok H. apply TSet; auto.
+    + unfold step_stream_reg in H.
+      destruct (dir_state (s_fs s) (parent (h_path h))); try discriminate.
+      destruct (fs_get (s_fs s) (h_path h)) as [x|] eqn:G.
+      * destruct x as [m|gs md ow dt|tg ow|]; try discriminate.
+        destruct (decide_stream _ me (N.eqb gs (h_sum h))) as [[| |]| |]; try discriminate; inv_ok H;
+          [apply TSame; reflexivity | apply TSet; auto].
+      * inv_ok H. apply TSet; auto.
+  - (* KDir *)
+    unfold step_dir in H.
+    destruct (mkdir_all (s_fs s) (prefixes (h_path h)) (perm_of (h_mode h))) as [m [e|]] eqn:M; try discriminate.
+    inv_ok H. apply TGrow; [reflexivity|]. intros p n G. cbn.
+    pose proof (mkdir_all_keeps (prefixes (h_path h)) (s_fs s) (perm_of (h_mode h)) p n G) as Hk.
+    rewrite M in Hk. exact Hk.
+  - (* KSym *)
+    destruct (is_lazy b).
+    + unfold step_lazy_file in H. rewrite K in H.
+      match type of H with (if ?c then _ else _) = _ => destruct c end.
+      * inv_ok H. apply TSame; reflexivity.
+      * apply need_dir_ok in H.
+        destruct (fs_get (s_fs s) (h_path h)) as [x|] eqn:G.
+        -- destruct x as [m|gs md [j|] dt|tg [j|]|]; try discriminate.
+           ++ destruct (decide_lazy (nth j pkgs no_pkg) me gs (h_sum h)); try discriminate; inv_ok H;
+                [apply TSame; reflexivity | apply TSet; auto].
+           ++ destruct dt; try discriminate. destruct (N.eqb gs (h_sum h)); try discriminate. inv_ok H. apply TSame; reflexivity.
+           ++ destruct (decide_lazy (nth j pkgs no_pkg) me tg (h_sum h)); try discriminate; inv_ok H;
+                [apply TSame; reflexivity | apply TSet; auto].
+        -- inv_ok H. apply TSet; auto.
+    + unfold step_stream_sym in H. apply need_dir_ok in H.
+      destruct (fs_get (s_fs s) (h_path h)) as [x|] eqn:G.
+      * destruct x as [m|gs md ow dt|tg ow|]; try discriminate.
+        destruct (N.eqb tg (h_sum h)); try discriminate. inv_ok H. apply TSame; reflexivity.
+      * inv_ok H. apply TSet; auto.
+  - (* KLink *)
+    unfold step_link in H. apply need_dir_ok in H.
+    destruct (dir_state (s_fs s) (parent (h_link h))); try discriminate.
+    destruct (fs_get (s_fs s) (h_link h)) as [x|] eqn:G; try discriminate.
+    destruct x as [m|gs md ow dt|tg ow|]; try discriminate.
+    destruct (fs_get (s_fs s) (h_path h)) eqn:G2; try discriminate.
+    inv_ok H. apply TGrow; [reflexivity|]. intros p n Hp. cbn.
+    rewrite fs_get_set_other; [exact Hp|]. intro; subst p. congruence.
+Qed.
+
+(* ---- the owner invariant -------------------------------------------------- *)
+Definition all_hdrs (pkgs : list pkg) : list hdr := flat_map p_files pkgs.
+
+(* no path is shipped as a regular file by one package and as a symbolic link
+   by another (or the same) *)
+Definition no_sym_over_reg (pkgs : list pkg) : Prop :=
+  forall h1 h2, In h1 (all_hdrs pkgs) -> In h2 (all_hdrs pkgs) ->
+    h_kind h1 = KReg -> h_kind h2 = KSym -> h_path h1 <> h_path h2.
+
+Lemma in_nth_all_hdrs : forall pkgs k h, In h (p_files (nth k pkgs no_pkg)) -> In h (all_hdrs pkgs).
+Proof.
+  intros pkgs k h H. unfold all_hdrs. apply in_flat_map.
+  destruct (Nat.lt_ge_cases k (List.length pkgs)) as [L|L].
+  - exists (nth k pkgs no_pkg). split; [apply nth_In; exact L | exact H].
+  - rewrite nth_overflow in H by exact L. contradiction.
+Qed.
+
+(* [L k] = the headers appended so far to package k's list *)
+Definition owned (pkgs : list pkg) (s : st) (L : nat -> list hdr) : Prop :=
+  forall p k, if_get (s_if s) p = Some k ->
+    exists h, In h (L k) /\ In h (p_files (nth k pkgs no_pkg)) /\ h_kind h = KReg /\ h_path h = p /\
+              fs_get (s_fs s) p = Some (NFile (h_sum h) (h_mode h) (Some k) true).
+
+Definition upd (L : nat -> list hdr) (i : nat) (l : list hdr) : nat -> list hdr :=
+  fun k => if Nat.eqb k i then l else L k.
+
+Lemma owned_step : forall b pkgs i s h s' app L acc,
+  no_sym_over_reg pkgs ->
+  In h (p_files (nth i pkgs no_pkg)) ->
+  owned pkgs s (upd L i acc) ->
+  step b pkgs i (nth i pkgs no_pkg) s h = IOk (s', app) ->
+  owned pkgs s' (upd L i (if app then acc ++ [h] else acc)).
+Proof.
+  intros b pkgs i s h s' app L acc Hsym Hin Hown Hstep.
+  assert (Hmono : forall k x, In x (upd L i acc k) -> In x (upd L i (if app then acc ++ [h] else acc) k)).
+  { intros k x. unfold upd. destruct (Nat.eqb k i); [|auto]. destruct app; [|auto]. intro. apply in_or_app. auto. }
+  apply step_trans in Hstep. destruct Hstep as [E|Eif Hfs|E Eapp Hk].
+  - subst s'. intros p k G. destruct (Hown p k G) as (x & A & B & C & D & F).
+    exists x. repeat split; auto.
+  - intros p k G. rewrite Eif in G. destruct (Hown p k G) as (x & A & B & C & D & F).
+    exists x. repeat split; auto.
+  - subst s' app. intros p k G. unfold set_file in G |- *. cbn [s_if s_fs] in *.
+    destruct Hk as [K|K]; rewrite K in *.
+    + (* a regular file was written at h_path h *)
+      destruct (list_eq_dec string_dec (h_path h) p) as [E|E].
+      * subst p. rewrite if_get_set_same in G. inv_ok G. exists h.
+        split. { unfold upd. rewrite Nat.eqb_refl. apply in_or_app. right. left. reflexivity. }
+        split; [exact Hin|]. split; [exact K|]. split; [reflexivity|].
+        rewrite fs_get_set_same. unfold file_node. rewrite K. reflexivity.
+      * rewrite if_get_set_other in G by exact E.
+        destruct (Hown p k G) as (x & A & B & C & D & F).
+        exists x. repeat split; auto. rewrite fs_get_set_other by exact E. exact F.
+    + (* a symbolic link was written: nobody owns that path *)
+      destruct (Hown p k G) as (x & A & B & C & D & F).
+      assert (h_path h <> p).
+      { intro E. apply (Hsym x h); auto.
+        - eapply in_nth_all_hdrs; exact B.
+        - eapply in_nth_all_hdrs; exact Hin.
+        - congruence. }
+      exists x. repeat split; auto. rewrite fs_get_set_other by assumption. exact F.
+Qed.
+
+Lemma owned_files : forall b pkgs i hs s acc s' acc' L,
+  no_sym_over_reg pkgs ->
+  (forall h, In h hs -> In h (p_files (nth i pkgs no_pkg))) ->
+  owned pkgs s (upd L i acc) ->
+  install_files b pkgs i (nth i pkgs no_pkg) s acc hs = IOk (s', acc') ->
+  owned pkgs s' (upd L i acc').
+Proof.
+  induction hs as [|h hs IH]; intros s acc s' acc' L Hsym Hsub Hown H; cbn in H.
+  - inv_ok H. exact Hown.
+  - destruct (step b pkgs i (nth i pkgs no_pkg) s h) as [[s1 app]|e s1] eqn:S; [|discriminate].
+    eapply IH; [exact Hsym | | | exact H].
+    + intros x Hx. apply Hsub. right. exact Hx.
+    + eapply owned_step; eauto. apply Hsub. left. reflexivity.
+Qed.
+
+Lemma upd_nth : forall (done : list (list hdr)) acc k,
+  upd (fun k => nth k done []) (List.length done) acc k = nth k (done ++ [acc]) [].
+Proof.
+  intros done acc k. unfold upd. destruct (Nat.eqb_spec k (List.length done)) as [E|E].
+  - subst k. rewrite app_nth2 by lia. rewrite Nat.sub_diag. reflexivity.
+  - destruct (Nat.lt_ge_cases k (List.length done)) as [Lk|Lk].
+    + rewrite app_nth1 by exact Lk. reflexivity.
+    + rewrite !nth_overflow; [reflexivity | rewrite app_length; cbn; lia | exact Lk].
+Qed.
+
+Lemma owned_ext : forall pkgs s L L', (forall k, L k = L' k) -> owned pkgs s L -> owned pkgs s L'.
+Proof. intros pkgs s L L' E H p k G. destruct (H p k G) as (x & A & B). exists x. rewrite <- E. auto. Qed.
+
+Lemma owned_all : forall b pkgs todo pre s done s' done',
+  no_sym_over_reg pkgs ->
+  pkgs = pre ++ todo -> List.length done = List.length pre ->
+  owned pkgs s (fun k => nth k done []) ->
+  install_all b pkgs (List.length pre) s done todo = IOk (s', done') ->
+  owned pkgs s' (fun k => nth k done' []).
+Proof.
+  induction todo as [|me todo IH]; intros pre s done s' done' Hsym Hp Hl Hown H; cbn in H.
+  - inv_ok H. exact Hown.
+  - assert (Hme : nth (List.length pre) pkgs no_pkg = me).
+    { subst pkgs. rewrite app_nth2 by lia. rewrite Nat.sub_diag. reflexivity. }
+    destruct (install_files b pkgs (List.length pre) me s [] (p_files me)) as [[s1 files]|e s1] eqn:F; [|discriminate].
+    specialize (IH (pre ++ [me]) s1 (done ++ [files]) s' done' Hsym).
+    assert (El : List.length (pre ++ [me]) = S (List.length pre)) by (rewrite app_length; cbn; lia).
+    rewrite El in IH.
+    apply IH; [subst pkgs; rewrite <- app_assoc; reflexivity | rewrite app_length; cbn; lia | | exact H].
+    apply owned_ext with (L := upd (fun k => nth k done []) (List.length done) files); [intro k; apply upd_nth|].
+    rewrite Hl. rewrite <- Hme in F.
+    eapply owned_files; [exact Hsym | | | exact F].
+    + intros x Hx. exact Hx.
+    + eapply owned_ext; [|exact Hown]. intro k. unfold upd.
+      destruct (Nat.eqb_spec k (List.length pre)) as [E|E]; [|reflexivity].
+      subst k. rewrite nth_overflow by lia. reflexivity.
+Qed.
+
+Lemma install_owned : forall b pkgs init f,
+  no_sym_over_reg pkgs -> install b pkgs init = RDone f ->
+  owned pkgs {| s_fs := f_fs f; s_if := f_if f |} (fun k => nth k (f_files f) []).
+Proof.
+  intros b pkgs init f Hsym H. unfold install in H.
+  destruct (install_all b pkgs 0 {| s_fs := init; s_if := [] |} [] pkgs) as [[s all]|e s] eqn:A; [|discriminate].
+  inv_ok H. cbn [f_fs f_if f_files].
+  pose proof (owned_all b pkgs pkgs [] {| s_fs := init; s_if := [] |} [] s all Hsym eq_refl eq_refl) as O.
+  cbn [List.length] in O. destruct s as [fs ifs]. apply O; [|exact A].
+  intros p k G. cbn in G. discriminate.
+Qed.
+
+(* pruning: a path with a recorded owner survives only in that owner's list *)
+Lemma prune_owner : forall ifs k files h i,
+  In h (prune ifs k files) -> if_get ifs (h_path h) = Some i -> k = i.
+Proof.
+  intros ifs k files h i H G. unfold prune in H. apply filter_In in H. destruct H as [_ H].
+  rewrite G in H. apply Nat.eqb_eq in H. auto.
+Qed.
+Lemma prune_keeps_own : forall ifs k files h,
+  In h files -> if_get ifs (h_path h) = Some k -> In h (prune ifs k files).
+Proof. intros. unfold prune. apply filter_In. split; [assumption|]. rewrite H0. apply Nat.eqb_refl. Qed.
+
+Theorem owner_invariant : forall b pkgs init f,
+  no_sym_over_reg pkgs -> install b pkgs init = RDone f ->
+  forall p i, if_get (f_if f) p = Some i ->
+    exists h, In h (p_files (nth i pkgs no_pkg)) /\ h_kind h = KReg /\ h_path h = p /\
+      (* the content (and mode) present is package i's *)
+      fs_get (f_fs f) p = Some (NFile (h_sum h) (h_mode h) (Some i) true) /\
+      (* after pruning the path is listed under package i ... *)
+      In h (prune (f_if f) i (nth i (f_files f) [])) /\
+      (* ... and under no other package *)
+      (forall k h', In h' (prune (f_if f) k (nth k (f_files f) [])) -> h_path h' = p -> k = i).
+Proof.
+  intros b pkgs init f Hsym H p i G.
+  destruct (install_owned b pkgs init f Hsym H p i G) as (h & A & B & C & D & F). cbn in F.
+  exists h. repeat split; auto.
+  - apply prune_keeps_own; [exact A | rewrite D; exact G].
+  - intros k h' Hin Hp. eapply prune_owner; [exact Hin | rewrite Hp; exact G].
+Qed.
+
+(* ---- a Conflict decision is the error of the whole install ---------------- *)
+(* header [h] of package [me] meets, in state [s], an entry written from
+   another package's tar entry (lazy) / a file with a recorded owner
+   (streaming), and the backend's decision procedure answers Conflict *)
+Definition conflict_at (b : backend) (pkgs : list pkg) (me : pkg) (s : st) (h : hdr) : Prop :=
+  dir_state (s_fs s) (parent (h_path h)) = PDir /\
+  if is_lazy b then
+    (h_kind h = KReg \/ h_kind h = KSym) /\
+    exists j gs, ((exists md dt, fs_get (s_fs s) (h_path h) = Some (NFile gs md (Some j) dt)) \/
+                  fs_get (s_fs s) (h_path h) = Some (NSym gs (Some j))) /\
+                 decide_lazy (nth j pkgs no_pkg) me gs (h_sum h) = Conflict
+  else
+    h_kind h = KReg /\
+    exists gs md ow dt j, fs_get (s_fs s) (h_path h) = Some (NFile gs md ow dt) /\
+      if_get (s_if s) (h_path h) = Some j /\
+      decide_stream (Some (nth j pkgs no_pkg)) me (N.eqb gs (h_sum h)) = SDec Conflict.
+
+Lemma decide_lazy_conflict_neq : forall a c gs ws, decide_lazy a c gs ws = Conflict -> N.eqb gs ws = false.
+Proof. intros a c gs ws. unfold decide_lazy. destruct (N.eqb gs ws); [discriminate | reflexivity]. Qed.
+
+Lemma conflict_step : forall b pkgs i me s h,
+  conflict_at b pkgs me s h -> step b pkgs i me s h = IErr (EConflict (h_path h)) s.
+Proof.
+  intros b pkgs i me s h [Hd H]. unfold step. destruct (is_lazy b) eqn:Lz.
+  - destruct H as (Hk & j & gs & Hn & Hc).
+    assert (Hneq := decide_lazy_conflict_neq _ _ _ _ Hc).
+    assert (E : step_lazy_file pkgs i me s h = IErr (EConflict (h_path h)) s).
+    { unfold step_lazy_file, need_dir. rewrite Hd.
+      destruct Hn as [(md & dt & G)|G]; rewrite G.
+      - destruct (h_kind h); cbn match; rewrite Hc; reflexivity.
+      - destruct (h_kind h); cbn match; try (rewrite Hc; reflexivity).
+        rewrite Hneq. rewrite Hc. reflexivity. }
+    destruct Hk as [K|K]; rewrite K; exact E.
+  - destruct H as (K & gs & md & ow & dt & j & G & Gi & Hc). rewrite K.
+    unfold step_stream_reg. rewrite Hd, G, Gi, Hc. reflexivity.
+Qed.
+
+Lemma install_files_err : forall b pkgs i me hpre s0 acc0 s acc h hpost e s',
+  install_files b pkgs i me s0 acc0 hpre = IOk (s, acc) ->
+  step b pkgs i me s h = IErr e s' ->
+  install_files b pkgs i me s0 acc0 (hpre ++ h :: hpost) = IErr e s'.
+Proof.
+  induction hpre as [|x hpre IH]; intros s0 acc0 s acc h hpost e s' H S; cbn in *.
+  - inv_ok H. rewrite S. reflexivity.
+  - destruct (step b pkgs i me s0 x) as [[s1 app]|e1 s1]; [|discriminate].
+    eapply IH; eauto.
+Qed.
+
+Lemma install_all_err : forall b pkgs pre i s0 done0 s1 done1 me post e s',
+  install_all b pkgs i s0 done0 pre = IOk (s1, done1) ->
+  install_files b pkgs (i + List.length pre) me s1 [] (p_files me) = IErr e s' ->
+  install_all b pkgs i s0 done0 (pre ++ me :: post) = IErr e s'.
+Proof.
+  induction pre as [|x pre IH]; intros i s0 done0 s1 done1 me post e s' H F; cbn in *.
+  - inv_ok H. rewrite Nat.add_0_r in F. rewrite F. reflexivity.
+  - destruct (install_files b pkgs i x s0 [] (p_files x)) as [[s2 files]|e2 s2]; [|discriminate].
+    eapply IH; [exact H|]. rewrite Nat.add_succ_comm. exact F.
+Qed.
+
+Theorem no_silent_overwrite : forall b pkgs init pre me post hpre h hpost s1 done1 s acc,
+  pkgs = pre ++ me :: post ->
+  p_files me = hpre ++ h :: hpost ->
+  install_all b pkgs 0 {| s_fs := init; s_if := [] |} [] pre = IOk (s1, done1) ->
+  install_files b pkgs (List.length pre) me s1 [] hpre = IOk (s, acc) ->
+  conflict_at b pkgs me s h ->
+  install b pkgs init = RFail (EConflict (h_path h)) s.
+Proof.
+  intros b pkgs init pre me post hpre h hpost s1 done1 s acc Hp Hf Hpre Hh Hc.
+  unfold install.
+  assert (E : install_all b pkgs 0 {| s_fs := init; s_if := [] |} [] pkgs = IErr (EConflict (h_path h)) s).
+  { rewrite Hp at 2. eapply install_all_err; [exact Hpre|]. cbn [Nat.add]. rewrite Hf.
+    eapply install_files_err; [exact Hh|]. apply conflict_step. exact Hc. }
+  rewrite E. reflexivity.
+Qed.
+
+(* ---- the database against the tree ---------------------------------------- *)
+Definition nodup_paths (pkgs : list pkg) : Prop :=
+  forall pk h1 h2, In pk pkgs -> In h1 (p_files pk) -> In h2 (p_files pk) -> h_path h1 = h_path h2 -> h1 = h2.
+
+Lemma install_files_sub : forall b pkgs i me hs s acc s' acc' x,
+  install_files b pkgs i me s acc hs = IOk (s', acc') -> In x acc' -> In x acc \/ In x hs.
+Proof.
+  induction hs as [|h hs IH]; intros s acc s' acc' x H Hx; cbn in H.
+  - inv_ok H. auto.
+  - destruct (step b pkgs i me s h) as [[s1 app]|e s1]; [|discriminate].
+    destruct (IH _ _ _ _ _ H Hx) as [A|A]; [|right; right; exact A].
+    destruct app; [|auto]. apply in_app_or in A. destruct A as [A|[A|[]]]; [auto | subst; right; left; reflexivity].
+Qed.
+
+Definition listed_sub (pkgs : list pkg) (done : list (list hdr)) : Prop :=
+  forall k x, In x (nth k done []) -> In x (p_files (nth k pkgs no_pkg)).
+
+Lemma listed_all : forall b pkgs todo pre s done s' done',
+  pkgs = pre ++ todo -> List.length done = List.length pre ->
+  listed_sub pkgs done ->
+  install_all b pkgs (List.length pre) s done todo = IOk (s', done') ->
+  listed_sub pkgs done'.
+Proof.
+  induction todo as [|me todo IH]; intros pre s done s' done' Hp Hl Hs H; cbn in H.
+  - inv_ok H. exact Hs.
+  - assert (Hme : nth (List.length pre) pkgs no_pkg = me).
+    { subst pkgs. rewrite app_nth2 by lia. rewrite Nat.sub_diag. reflexivity. }
+    destruct (install_files b pkgs (List.length pre) me s [] (p_files me)) as [[s1 files]|e s1] eqn:F; [|discriminate].
+    specialize (IH (pre ++ [me]) s1 (done ++ [files]) s' done').
+    assert (El : List.length (pre ++ [me]) = S (List.length pre)) by (rewrite app_length; cbn; lia).
+    rewrite El in IH.
+    apply IH; [subst pkgs; rewrite <- app_assoc; reflexivity | rewrite app_length; cbn; lia | | exact H].
+    intros k x Hx. rewrite <- upd_nth in Hx. unfold upd in Hx.
+    destruct (Nat.eqb_spec k (List.length done)) as [E|E].
+    + subst k. rewrite Hl, Hme. destruct (install_files_sub _ _ _ _ _ _ _ _ _ x F Hx) as [[]|A]. exact A.
+    + apply Hs. exact Hx.
+Qed.
+
+Lemma db_from_nth : forall ifs all i k entries,
+  nth_error (db_from ifs i all) k = Some entries ->
+  entries = db_entries ifs (i + k) (nth k all []).
+Proof.
+  induction all as [|f all IH]; intros i k entries H; cbn in H.
+  - destruct k; discriminate.
+  - destruct k as [|k]; cbn in H.
+    + inv_ok H. rewrite Nat.add_0_r. reflexivity.
+    + rewrite (IH _ _ _ H). rewrite Nat.add_succ_comm. reflexivity.
+Qed.
+
+Lemma db_entries_sub : forall ifs k files h, In h (db_entries ifs k files) -> In h (prune ifs k files).
+Proof. intros ifs k files h H. unfold db_entries in H. apply filter_In in H. tauto. Qed.
+
+Theorem db_regular_entries_true : forall b pkgs init f,
+  no_sym_over_reg pkgs -> nodup_paths pkgs -> install b pkgs init = RDone f ->
+  forall k entries h, nth_error (f_db f) k = Some entries -> In h entries -> h_kind h = KReg ->
+    if_get (f_if f) (h_path h) = None \/
+    fs_get (f_fs f) (h_path h) = Some (NFile (h_sum h) (h_mode h) (Some k) true).
+Proof.
+  intros b pkgs init f Hsym Hnd H k entries h Hn Hin Hk.
+  pose proof (install_owned b pkgs init f Hsym H) as Hown.
+  assert (Hsub : listed_sub pkgs (f_files f)).
+  { unfold install in H.
+    destruct (install_all b pkgs 0 {| s_fs := init; s_if := [] |} [] pkgs) as [[s all]|e s] eqn:A; [|discriminate].
+    inv_ok H. cbn [f_files].
+    apply (listed_all b pkgs pkgs [] {| s_fs := init; s_if := [] |} [] s all eq_refl eq_refl); [|exact A].
+    intros j x Hx. destruct j; cbn in Hx; contradiction. }
+  assert (Hdb : f_db f = db_from (f_if f) 0 (f_files f)).
+  { unfold install in H.
+    destruct (install_all b pkgs 0 {| s_fs := init; s_if := [] |} [] pkgs) as [[s all]|e s]; [|discriminate].
+    inv_ok H. reflexivity. }
+  rewrite Hdb in Hn. apply db_from_nth in Hn. cbn [Nat.add] in Hn. subst entries.
+  apply db_entries_sub in Hin.
+  destruct (if_get (f_if f) (h_path h)) as [j|] eqn:G; [right | left; reflexivity].
+  assert (k = j) by (eapply prune_owner; eauto). subst j.
+  destruct (Hown (h_path h) k G) as (h0 & A & B & C & D & F). cbn in F.
+  assert (Hfiles : In h (p_files (nth k pkgs no_pkg))).
+  { apply Hsub. unfold prune in Hin. apply filter_In in Hin. tauto. }
+  assert (h0 = h).
+  { destruct (Nat.lt_ge_cases k (List.length pkgs)) as [Lk|Lk].
+    - eapply Hnd; [apply nth_In; exact Lk | exact B | exact Hfiles | exact D].
+    - rewrite nth_overflow in Hfiles by exact Lk. contradiction. }
+  subst h0. exact F.
+Qed.
+
+(* the full statement: every recorded entry exists with the recorded mode and owner *)
+Definition node_perm (n : node) : N :=
+  match n with NDir m => N.land m 511 | NFile _ m _ _ => N.land m 511 | NSym _ _ => 511 | NOther => 0 end.
+Definition DbMatchesFs (f : final) : Prop :=
+  forall k entries h, nth_error (f_db f) k = Some entries -> In h entries ->
+    exists n, fs_get (f_fs f) (h_path h) = Some n /\
+      node_perm n = perm_of (h_mode h) /\ node_uid n = h_uid h /\ node_gid n = h_gid h.
+
+Definition wit_dirs : list hdr :=
+  [ {| h_path := ["usr"]; h_kind := KDir; h_mode := 493; h_uid := 0; h_gid := 0; h_sum := 0; h_link := [] |};
+    {| h_path := ["usr"; "bin"]; h_kind := KDir; h_mode := 493; h_uid := 0; h_gid := 0; h_sum := 0; h_link := [] |} ].
+Definition wit_file_1000 : hdr :=
+  {| h_path := ["usr"; "bin"; "x"]; h_kind := KReg; h_mode := 493; h_uid := 1000; h_gid := 1000; h_sum := 2; h_link := [] |}.
+
+(* C07-F1: one package, one file owned 1000:1000 *)
+Lemma db_owner_witness : forall b, exists f entries n,
+  install b [ {| p_name := "a"; p_origin := "a"; p_replaces := []; p_files := wit_dirs ++ [wit_file_1000] |} ] [] = RDone f /\
+  nth_error (f_db f) 0 = Some entries /\ In wit_file_1000 entries /\
+  fs_get (f_fs f) (h_path wit_file_1000) = Some n /\ node_uid n <> h_uid wit_file_1000.
+Proof.
+  intro b. destruct b; eexists _, _, _;
+    (split; [vm_compute; reflexivity|]); (split; [vm_compute; reflexivity|]);
+    (split; [vm_compute; tauto|]); (split; [vm_compute; reflexivity|]); vm_compute; discriminate.
+Qed.
+
+(* C07-F2: two packages ship opt/d with modes 0700 and 0755, all owners root *)
+Definition wit_dir (m : N) : hdr :=
+  {| h_path := ["opt"; "d"]; h_kind := KDir; h_mode := m; h_uid := 0; h_gid := 0; h_sum := 0; h_link := [] |}.
+Definition wit_opt : hdr :=
+  {| h_path := ["opt"]; h_kind := KDir; h_mode := 493; h_uid := 0; h_gid := 0; h_sum := 0; h_link := [] |}.
+Definition wit_f (name : string) (sm : N) : hdr :=
+  {| h_path := ["opt"; "d"; name]; h_kind := KReg; h_mode := 420; h_uid := 0; h_gid := 0; h_sum := sm; h_link := [] |}.
+Lemma db_dir_mode_witness : forall b, exists f entries n,
+  install b [ {| p_name := "a"; p_origin := "a"; p_replaces := []; p_files := [wit_opt; wit_dir 448; wit_f "a" 2] |};
+              {| p_name := "b"; p_origin := "b"; p_replaces := []; p_files := [wit_opt; wit_dir 493; wit_f "b" 3] |} ] [] = RDone f /\
+  nth_error (f_db f) 1 = Some entries /\ In (wit_dir 493) entries /\
+  fs_get (f_fs f) ["opt"; "d"] = Some n /\ node_perm n <> perm_of (h_mode (wit_dir 493)).
+Proof.
+  intro b. destruct b; eexists _, _, _;
+    (split; [vm_compute; reflexivity|]); (split; [vm_compute; reflexivity|]);
+    (split; [vm_compute; tauto|]); (split; [vm_compute; reflexivity|]); vm_compute; discriminate.
+Qed.
+
+Theorem db_matches_fs_refuted : forall b,
+  ~ (forall pkgs init f, install b pkgs init = RDone f -> DbMatchesFs f).
+Proof.
+  intros b H. destruct (db_owner_witness b) as (f & entries & n & A & B & C & D & E).
+  destruct (H _ _ _ A 0 entries wit_file_1000 B C) as (n' & G & _ & U & _).
+  rewrite D in G. inv_ok G. contradiction.
+Qed.
+
+Theorem db_matches_fs_refuted_root_owned : forall b,
+  ~ (forall pkgs init f, install b pkgs init = RDone f ->
+       (forall h, In h (all_hdrs pkgs) -> h_uid h = 0%N /\ h_gid h = 0%N) -> DbMatchesFs f).
+Proof.
+  intros b H. destruct (db_dir_mode_witness b) as (f & entries & n & A & B & C & D & E).
+  destruct (H _ _ _ A) with (k := 1) (entries := entries) (h := wit_dir 493) as (n' & G & Pm & _); auto.
+  - intros h Hh. cbn in Hh. repeat (destruct Hh as [Hh|Hh]; [subst h; split; reflexivity|]). contradiction.
+  - cbn [h_path wit_dir] in G. rewrite D in G. inv_ok G. contradiction.
+Qed.
+
+(* without the hypothesis on symbolic links the owner invariant fails on tarfs *)
+Lemma owner_invariant_needs_no_sym_over_reg : exists pkgs f p i,
+  install Lazy pkgs [] = RDone f /\ if_get (f_if f) p = Some i /\
+  forall sm md ow dt, fs_get (f_fs f) p <> Some (NFile sm md ow dt).
+Proof.
+  exists [ {| p_name := "a"; p_origin := "o"; p_replaces := []; p_files := wit_dirs ++ [
+             {| h_path := ["usr"; "bin"; "x"]; h_kind := KReg; h_mode := 493; h_uid := 0; h_gid := 0; h_sum := 2; h_link := [] |}] |};
+           {| p_name := "b"; p_origin := "o"; p_replaces := []; p_files := wit_dirs ++ [
+             {| h_path := ["usr"; "bin"; "x"]; h_kind := KSym; h_mode := 511; h_uid := 0; h_gid := 0; h_sum := 3; h_link := [] |}] |} ].
+  eexists _, ["usr"; "bin"; "x"], 0.
+  split; [vm_compute; reflexivity|]. split; [vm_compute; reflexivity|].
+  intros sm md ow dt. vm_compute. discriminate.
+Qed.
+
+(* ---- the rule validator decides the readable statement --------------------- *)
+Lemma eclass_eqb_eq : forall a b, eclass_eqb a b = true <-> a = b.
+Proof. destruct a, b; cbn; split; intro; try reflexivity; discriminate. Qed.
+Lemma tkind_eqb_eq : forall a b, tkind_eqb a b = true <-> a = b.
+Proof. destruct a, b; cbn; split; intro; try reflexivity; discriminate. Qed.
+
+Lemma own_get_in : forall m p v, own_get m p = Some v -> exists q, In (q, v) m /\ q = p.
+Proof.
+  induction m as [|[q x] m IH]; intros p v H; cbn in H; [discriminate|].
+  destruct (path_eqb q p) eqn:E.
+  - inv_ok H. apply path_eqb_eq in E. exists q. split; [left; reflexivity | exact E].
+  - destruct (IH _ _ H) as (r & A & B). exists r. split; [right; exact A | exact B].
+Qed.
+Lemma in_own_get : forall m p v, In (p, v) m -> exists v', own_get m p = Some v'.
+Proof.
+  induction m as [|[q x] m IH]; intros p v H; [contradiction|]. cbn.
+  destruct (path_eqb q p) eqn:E; [eexists; reflexivity|].
+  destruct H as [H|H]; [inv_ok H; rewrite path_eqb_refl in E; discriminate | eapply IH; exact H].
+Qed.
+
+Lemma winners_present_iff : forall m tree,
+  winners_present m tree = true <->
+  forall p i sm k, own_get m p = Some (i, sm, k) ->
+    exists n, tree_get tree p = Some n /\ t_kind n = tkind_of k /\ t_sum n = sm.
+Proof.
+  intros m tree. unfold winners_present. rewrite forallb_forall. split.
+  - intros H p i sm k G. destruct (own_get_in _ _ _ G) as (q & A & B). subst q.
+    specialize (H _ A). cbn [fst] in H. rewrite G in H.
+    destruct (tree_get tree p) as [n|]; [|discriminate].
+    apply andb_true_iff in H. destruct H as [H1 H2].
+    exists n. split; [reflexivity|]. split; [apply tkind_eqb_eq; exact H1 | symmetry; apply N.eqb_eq; rewrite N.eqb_sym; exact H2].
+  - intros H [p v] Hin. cbn [fst]. destruct (in_own_get _ _ _ Hin) as ([[i sm] k] & G). rewrite G.
+    destruct (H _ _ _ _ G) as (n & A & B & C). rewrite A. apply andb_true_iff. split.
+    + apply tkind_eqb_eq. exact B.
+    + apply N.eqb_eq. exact C.
+Qed.
+
+Lemma walk_files_spec_nofail : forall hs pkgs i me m, walk_files spec_rule pkgs i me m hs <> WFail.
+Proof.
+  induction hs as [|h hs IH]; intros pkgs i me m; cbn; [discriminate|].
+  destruct (h_kind h); try apply IH;
+    (destruct (own_get m (h_path h)) as [[[j gs] k]|]; [|apply IH];
+     unfold spec_rule; destruct (spec_clash (nth j pkgs no_pkg) me gs (h_sum h)); try apply IH; discriminate).
+Qed.
+Lemma walk_pkgs_spec_nofail : forall todo pkgs i m, walk_pkgs spec_rule pkgs i m todo <> WFail.
+Proof.
+  induction todo as [|me todo IH]; intros pkgs i m; cbn; [discriminate|].
+  destruct (walk_files spec_rule pkgs i me m (p_files me)) eqn:E; [apply IH | discriminate|].
+  exfalso. exact (walk_files_spec_nofail _ _ _ _ _ E).
+Qed.
+
+Theorem rules_validator_decides : forall pkgs e tree,
+  agrees (spec_walk pkgs) e tree = true <-> RulesObeyed pkgs e tree.
+Proof.
+  intros pkgs e tree. unfold agrees, RulesObeyed.
+  (* the spec's rule never answers "fails some other way" *)
+  pose proof (walk_pkgs_spec_nofail pkgs pkgs 0 []) as NF. fold (spec_walk pkgs) in NF.
+  destruct (spec_walk pkgs) as [m|p|]; [| |contradiction].
+  - rewrite andb_true_iff, eclass_eqb_eq, winners_present_iff. tauto.
+  - apply eclass_eqb_eq.
+Qed.
